@@ -5,16 +5,19 @@ import PynnVerif.Driver.Util
 namespace Pynn.Drv
 open Pynn.Idx
 
+/-- row numbers, counts and vertex orders are naturals; `pNat` would silently read `-1` as `0` -/
+def allNats (toks : List String) : Bool := toks.all (fun t => t.toNat?.isSome)
+
 def parseOp (toks : List String) : Option Op :=
   match toks with
-  | "prepare" :: v => if allInts v then some (.prepare (v.map pNat)) else none
+  | "prepare" :: v => if allNats v then some (.prepare (v.map pNat)) else none
   | ["query"] => some .query
-  | "pickle" :: v => if allInts v then some (.pickle (v.map pNat)) else none
-  | "compress" :: v => if allInts v then some (.compress (v.map pNat)) else none
+  | "pickle" :: v => if allNats v then some (.pickle (v.map pNat)) else none
+  | "compress" :: v => if allNats v then some (.compress (v.map pNat)) else none
   | "update" :: rest =>
     match splitAt "|" rest with
     | [[nf], repl, v] =>
-      if allInts [nf] && allInts repl && allInts v then some (.update (pNat nf) (repl.map pNat) [] (v.map pNat)) else none
+      if allNats [nf] && allNats repl && allNats v then some (.update (pNat nf) (repl.map pNat) [] (v.map pNat)) else none
     | _ => none
   | _ => none
 
@@ -30,7 +33,7 @@ def showSt (s : St) (o : Out) : String :=
 def handleIndex : Handler := fun toks =>
   match splitAt ";" toks with
   | ["idxrun", n] :: ops =>
-    if !allInts [n] then some "bad-op" else
+    if !allNats [n] then some "bad-op" else
     match ops.mapM parseOp with
     | none => some "bad-op"
     | some ops =>
